@@ -9,7 +9,7 @@ import json
 import vlib, m2, m3
 from batch import Batch, J
 
-PROOF_TARGETS = ["TypifyModel.Proofs.C02", "TypifyModel.Proofs.FlattenFindings", "TypifyModel.Proofs.Tagging"]
+PROOF_TARGETS = ["TypifyModel.Proofs.C02", "TypifyModel.Proofs.FlattenFindings", "TypifyModel.Proofs.Tagging", "TypifyModel.Proofs.TaggingComplete"]
 PROOF_FILES = ["Proofs/C02.lean", "Proofs/Lemmas/ConvLemmas.lean", "Proofs/Lemmas/ConvAccepts.lean",
                "Proofs/Lemmas/ConvAccepts2.lean", "Proofs/Lemmas/ConvAccepts3.lean"]
 
@@ -200,7 +200,7 @@ def attribute(fd_list, doc, key, schema, value, dump, answer=""):
 def run(ctx):
     import gen
     findings = vlib.load_findings("C02")
-    st = vlib.proof_stage(ctx, "C02", PROOF_TARGETS, PROOF_FILES + ["Proofs/Tagging.lean"], slices=["ir", "tag"])
+    st = vlib.proof_stage(ctx, "C02", PROOF_TARGETS, PROOF_FILES + ["Proofs/Tagging.lean", "Proofs/TaggingComplete.lean"], slices=["ir", "tag"])
     # which shape a union gets (Option / enum under which tagging / flattened struct): convert_one_of and enums.rs against their model (M0)
     import tagstage
     tstats, tdis = tagstage.stage(ctx, ctx.tier == "thorough") if st["driver_ok"] else ({"ran": False}, [])
